@@ -14,6 +14,8 @@ import (
 	mrand "math/rand"
 	"errors"
 	"net"
+	"os"
+	"path/filepath"
 	"reflect"
 	"strings"
 	"sync"
@@ -43,6 +45,10 @@ type zvqServeWait struct {
 	mu   sync.Mutex
 	idle []*zvqSrvConn // request connections that are still usable
 	all  []*zvqSrvConn
+
+	ln  net.Listener // lazily created unix socket of this agent (stream deliveries)
+	dir string
+	umu sync.Mutex
 
 	classes map[string]int // request classes sent (what the dispatcher did after the broadcast)
 }
@@ -105,11 +111,16 @@ var zvqHardVariant, zvqSlotVariant uint32
 
 // zvqFrame builds a request whose first byte is code, never shorter than the dispatcher indexes (shorter frames belong
 // to another property).  cls names the class of the request: what the dispatcher does with it after the broadcast.
-func zvqFrame(code byte, r *mrand.Rand) (f []byte, cls string) {
+// answered: only frames the dispatcher answers (it keeps serving the connection afterwards).
+func zvqFrame(code byte, r *mrand.Rand, answered bool) (f []byte, cls string) {
 	switch code {
 	case AgentMessageAddHardCert:
 		k := verifh.PoolKey(r.Intn(2), "ed25519")
-		switch atomic.AddUint32(&zvqHardVariant, 1) % 4 { // every variant in turn
+		v := atomic.AddUint32(&zvqHardVariant, 1) % 4 // every variant in turn
+		if answered {
+			v %= 2
+		}
+		switch v {
 		case 0:
 			return ssh.Marshal(zvqAddHardReq{KeyBlob: k.Pub.Marshal(), Comment: "verif"}), "addhard-wellformed"
 		case 1:
@@ -173,7 +184,7 @@ func (b *zvqServeWait) Request(code byte, r *mrand.Rand) (pan bool, err error) {
 		}
 	}()
 	sc.c.SetDeadline(time.Now().Add(25 * time.Second))
-	fr, cls := zvqFrame(code, r)
+	fr, cls := zvqFrame(code, r, false)
 	if err = verifh.WriteFrame(sc.c, fr); err == nil {
 		_, err = verifh.ReadFrame(sc.c)
 	}
@@ -194,6 +205,151 @@ func (b *zvqServeWait) Request(code byte, r *mrand.Rand) (pan bool, err error) {
 	b.idle = append(b.idle, sc)
 	b.mu.Unlock()
 	return atomic.LoadInt32(&sc.pan) == 1, nil
+}
+
+// connectUnix opens a connection to the agent over a real unix socket: the accepted end is served by ServeAgent.
+func (b *zvqServeWait) connectUnix() (*zvqSrvConn, error) {
+	b.mu.Lock()
+	if b.ln == nil {
+		dir, err := os.MkdirTemp("", "vwu")
+		if err != nil {
+			b.mu.Unlock()
+			return nil, err
+		}
+		b.dir = dir
+		ln, err := net.Listen("unix", filepath.Join(dir, "y.sock"))
+		if err != nil {
+			b.mu.Unlock()
+			return nil, err
+		}
+		b.ln = ln
+	}
+	ln := b.ln
+	b.mu.Unlock()
+	sc := &zvqSrvConn{}
+	acc := make(chan error, 1)
+	b.umu.Lock() // one dial/accept pair at a time on this listener
+	go func() {
+		c2, err := ln.Accept()
+		acc <- err
+		if err != nil {
+			return
+		}
+		defer c2.Close()
+		defer func() {
+			if r := recover(); r != nil {
+				atomic.StoreInt32(&sc.pan, 1)
+			}
+		}()
+		if err := ServeAgent(b.srv, c2); err != nil {
+			atomic.StoreInt32(&sc.bad, 1)
+			if strings.Contains(err.Error(), "panic") {
+				atomic.StoreInt32(&sc.pan, 1)
+			}
+		}
+	}()
+	c1, err := net.Dial("unix", ln.Addr().String())
+	if err == nil {
+		err = <-acc
+	}
+	b.umu.Unlock()
+	if err != nil {
+		return nil, err
+	}
+	sc.c = c1
+	b.mu.Lock()
+	b.all = append(b.all, sc)
+	b.mu.Unlock()
+	return sc, nil
+}
+
+// RequestStream writes the frames of all codes to one fresh connection without waiting for replies - in one write
+// (pipelined) or cut at arbitrary places into several writes (fragmented) - and then collects the replies.
+func (b *zvqServeWait) RequestStream(codes []byte, dl string, r *mrand.Rand) (pan bool, err error) {
+	var payload []byte
+	cls := dl
+	for _, c := range codes {
+		fr, _ := zvqFrame(c, r, true)
+		payload = append(payload, byte(len(fr)>>24), byte(len(fr)>>16), byte(len(fr)>>8), byte(len(fr)))
+		payload = append(payload, fr...)
+	}
+	var sc *zvqSrvConn
+	if r.Intn(3) == 0 {
+		if sc, err = b.connectUnix(); err != nil {
+			return false, err
+		}
+		cls += "/unix-socket"
+	} else {
+		sc = b.connect()
+		cls += "/pipe"
+	}
+	defer sc.c.Close()
+	var chunks [][]byte
+	if dl == "fragmented" {
+		rest := payload
+		for len(rest) > 0 {
+			n := 1 + r.Intn(len(rest))
+			if r.Intn(3) == 0 {
+				n = 1 + r.Intn(4) // dribble: cuts inside length prefixes
+			}
+			if n > len(rest) {
+				n = len(rest)
+			}
+			chunks = append(chunks, rest[:n])
+			rest = rest[n:]
+		}
+	} else {
+		chunks = [][]byte{payload}
+	}
+	pauses := make([]time.Duration, len(chunks))
+	for i := range pauses {
+		if r.Intn(2) == 0 {
+			pauses[i] = time.Duration(r.Intn(300)) * time.Microsecond
+		}
+	}
+	sc.c.SetDeadline(time.Now().Add(35 * time.Second))
+	wrote := make(chan error, 1)
+	go func() {
+		for i, ch := range chunks {
+			if _, err := sc.c.Write(ch); err != nil {
+				wrote <- err
+				return
+			}
+			if pauses[i] > 0 {
+				time.Sleep(pauses[i])
+			}
+		}
+		wrote <- nil
+	}()
+	// replies: every request of the stream is of a kind the dispatcher answers.  A reply that does not come within
+	// 5 s after the previous one ends the collection (the step is then observed as it is).
+	got := 0
+	for got < len(codes) {
+		sc.c.SetReadDeadline(time.Now().Add(5 * time.Second))
+		if _, rerr := verifh.ReadFrame(sc.c); rerr != nil {
+			err = fmt.Errorf("%d of %d requests of the stream were answered: %v", got, len(codes), rerr)
+			break
+		}
+		got++
+	}
+	if err != nil {
+		sc.c.Close()
+		cls += "/replies-missing"
+	} else {
+		cls += "/all-answered"
+	}
+	select {
+	case werr := <-wrote:
+		if werr != nil && err == nil {
+			err = werr
+		}
+	case <-time.After(5 * time.Second):
+		sc.c.Close()
+	}
+	b.mu.Lock()
+	b.classes[fmt.Sprintf("%s/%d-frames", cls, len(codes))]++
+	b.mu.Unlock()
+	return atomic.LoadInt32(&sc.pan) == 1, err
 }
 
 func (b *zvqServeWait) Counts() (int, [][2]int, error) {
@@ -221,6 +377,10 @@ func (b *zvqServeWait) Close() {
 	b.mu.Lock()
 	for _, sc := range b.all {
 		sc.c.Close()
+	}
+	if b.ln != nil {
+		b.ln.Close()
+		os.RemoveAll(b.dir)
 	}
 	b.mu.Unlock()
 	func() {
